@@ -52,8 +52,10 @@ _quiet.setLevel(logging.CRITICAL)
 class Labels:
     """Bidirectional map model label <-> real node object for one case."""
 
-    def __init__(self, kind: str, rt: dict | None = None, live=None, slo=None):
+    def __init__(self, kind: str, rt: dict | None = None, live=None, slo=None, unit=None, slo_unit=None):
         self.kind = kind
+        self.unit = unit or {}  # label -> "ms" | "s": the runtime is GIVEN in that unit (rt stays in us)
+        self.slo_unit = slo_unit or {}
         self.rt = rt or {}
         self.live = live
         self.slo = slo or {}
@@ -83,7 +85,14 @@ class Labels:
             WorkProfile,
         )
 
-        runtime = EventTime(int(self.rt.get(n, 1)), EventTime.Unit.US)
+        def et(us, unit_name):
+            unit = {"us": EventTime.Unit.US, "ms": EventTime.Unit.MS, "s": EventTime.Unit.S}[unit_name]
+            factor = int(unit.value)
+            if us % factor:
+                raise ValueError(f"{us} us is not a whole number of {unit_name}")
+            return EventTime(us // factor, unit)
+
+        runtime = et(int(self.rt.get(n, 1)), self.unit.get(n, "us"))
         profile = WorkProfile(
             name=f"P{n}",
             execution_strategies=ExecutionStrategies(
@@ -97,7 +106,7 @@ class Labels:
             ),
         )
         prob = 1.0 if (self.live is None or n in self.live) else 0.0
-        slo = EventTime(int(self.slo[n]), EventTime.Unit.US) if n in self.slo else EventTime.invalid()
+        slo = et(int(self.slo[n]), self.slo_unit.get(n, "us")) if n in self.slo else EventTime.invalid()
         job = Job(name=f"J{n}", profile=profile, slo=slo, probability=prob)
         if k == "job":
             return job
@@ -275,7 +284,9 @@ def run_case(case: dict, timeout_s: float = 10.0) -> dict:
     live = set(case["live"]) if "live" in case else None
     slo = {n: s for n, s in case.get("slo", [])}
     random.seed(12345)  # Job/Task ids come from `random`; they are never observed
-    lab = Labels(kind, rt, live, slo)
+    unit = {n: u for n, u in case.get("unit", [])}
+    slo_unit = {n: u for n, u in case.get("slo_unit", [])}
+    lab = Labels(kind, rt, live, slo, unit, slo_unit)
     g = new_graph(kind)
     res = []
     old = signal.signal(signal.SIGALRM, _alarm)
@@ -288,6 +299,17 @@ def run_case(case: dict, timeout_s: float = 10.0) -> dict:
                 for n, cs in op["map"]:
                     mapping[lab.get(n)] = [lab.get(c) for c in cs]
                 g = new_graph(kind, mapping)
+                res.append(None)
+            elif o == "update_edges":
+                mapping = {}
+                for n, cs in op["map"]:
+                    mapping[lab.get(n)] = [lab.get(c) for c in cs]
+                if kind == "task":
+                    g.update_edges(mapping)  # the real public entry point
+                else:
+                    from workload.graph import Graph
+
+                    Graph.__init__(g, mapping)  # the code path update_edges takes
                 res.append(None)
             elif o == "add_node":
                 if kind == "task":
